@@ -35,6 +35,15 @@ and that statement -- and nothing else -- is skipped):
   mask = ~0 in the second; `x + (mask & n)` is then x resp. x + n.  `mask = 0` is a plain assignment.
 * ecpIsOnA: the leading `if (!zmIsIn(ecX(a)) || !zmIsIn(ecY(a))) return FALSE;` (word-level range test,
   modelled outside the program: `Wrap.isOnAW`) is recognised by its exact pattern and skipped.
+
+Stage 2, `generate_ec2()` -> Bee2V/Gen/C06Ec2.lean: the routines of src/math/ec2.c (GF(2^m), Lopez-Dahab)
+with the same machinery plus: wwXor(c,a,b,n) (gf2Add) -> `add c a b`; wwXor2(b,a,n) (gf2Add2) ->
+`add b b a`; tests on the coefficient registers (`qrIsUnity(ec->A)` -> `ifone rA`, `qrIsZero(ec->A)` ->
+`ifz rA`); `return g(...)` in a bool routine -> tail call; a non-tail call of a void straight-line routine
+without stack (`ec2NegA(t, b, ec)` in ec2SubAA) is inlined with its operands substituted, any other
+non-tail call is Unhandled; ec2IsOnA: the leading `if (!ec2SeemsOnA(a, ec)) return FALSE;` =
+`!((gf2Deg(f) % B_PER_W == 0 || wwCmp(xa, mod, n) < 0) && (... ya ...))` is skipped by exact pattern;
+table of ec2CreateLD (nine fields, no tpl, no bA3).  `python3 x_c06_ecp.py ec2` prints that file.
 """
 import sys, os
 sys.path.insert(0, os.path.dirname(__file__))
@@ -83,11 +92,12 @@ def is_void0(n):
 class Fn:
     """translation of one routine"""
 
-    def __init__(self, name, sizes, done):
+    def __init__(self, name, sizes, done, src=None):
+        self.src = src or SRC
         self.name = name
         self.sizes = sizes
         self.done = done            # name -> Fn of the routines translated so far
-        self.decl, self.body = tu_function(SRC, name, EXTRA)
+        self.decl, self.body = tu_function(self.src, name, EXTRA)
         self.void = self.decl["type"]["qualType"].startswith("void ")
         if not self.void and not self.decl["type"]["qualType"].startswith("bool_t "):
             self.bad("return type")
@@ -200,11 +210,27 @@ class Fn:
         if k == "BinaryOperator" and n["opcode"] in ("||", "&&"):
             return ("test", "or" if n["opcode"] == "||" else "and",
                     self.test(n["inner"][0], env), self.test(n["inner"][1], env))
+        if k == "BinaryOperator" and n["opcode"] == "<=":
+            # gf2IsIn after docs/C06.fix-2.diff: wwBitSize(a, (f)->n) <= gf2Deg(f)  (degree test) — same role as
+            # the integer comparison with the modulus of the unrepaired macro: the word-level range test
+            l, r = strip(n["inner"][0]), strip(n["inner"][1])
+            if l["kind"] == "CallExpr" and self.callee(l) == "wwBitSize" and len(l["inner"]) == 3 and \
+                    r["kind"] == "CallExpr" and self.callee(r) == "gf2Deg" and len(r["inner"]) == 2:
+                a = [self.ev(x, env) for x in l["inner"][1:]]
+                if a[1] == ("nn", 1) and a[0][0] == "ptr" and self.ev(r["inner"][1], env) == ("fld",):
+                    return ("test", "inrange", a[0])
+            self.bad("<= test")
         if k == "BinaryOperator" and n["opcode"] in ("==", "!=", "<"):
             c = strip(n["inner"][0])
             z = strip(n["inner"][1])
             if not (z["kind"] == "IntegerLiteral" and z["value"] == "0"):
                 self.bad("comparison with non-zero")
+            if c["kind"] == "BinaryOperator" and c["opcode"] == "%" and n["opcode"] == "==":
+                g, w = strip(c["inner"][0]), strip(c["inner"][1])
+                if g["kind"] == "CallExpr" and self.callee(g) == "gf2Deg" and len(g["inner"]) == 2 and \
+                        self.ev(g["inner"][1], env) == ("fld",) and w["kind"] == "IntegerLiteral":
+                    return ("test", "aligned")        # gf2Deg(f) % B_PER_W == 0 (only inside gf2IsIn)
+                self.bad("remainder test")
             if c["kind"] != "CallExpr" or self.callee(c) != "wwCmp":
                 self.bad("comparison of a non-wwCmp value")
             a = [self.ev(x, env) for x in c["inner"][1:]]
@@ -334,6 +360,18 @@ class Fn:
             ins.append(({"zzNegMod": "neg", "zzDoubleMod": "dbl", "zzHalfMod": "half"}[f],
                         [self.wr(args[0], env)] + ss))
             return ins
+        if f == "wwXor":                     # gf2Add(c, a, b, f)
+            if len(args) != 4 or args[3] != ("nn", 1):
+                self.bad("wwXor arguments")
+            ss = [src(p) for p in args[1:3]]
+            ins.append(("add", [self.wr(args[0], env)] + ss))
+            return ins
+        if f == "wwXor2":                    # gf2Add2(b, a, f): b <- b + a
+            if len(args) != 3 or args[2] != ("nn", 1):
+                self.bad("wwXor2 arguments")
+            ss = [self.rd(args[0], env), src(args[1])]
+            ins.append(("add", [self.wr(args[0], env)] + ss))
+            return ins
         if f == "wwSetZero":
             if len(args) != 2 or args[1] != ("nn", 1):
                 self.bad("wwSetZero arguments")
@@ -419,8 +457,42 @@ class Fn:
                     out.append(("stk", env["stack"][2]))
             if g.uses_p:
                 self.bad("callee needs the modulus")
+            if g.void != self.void:
+                self.bad("result of %s" % f)
             return ("app", f, out)
         self.bad("call of " + str(f))
+
+    def inline(self, n, env):
+        """non-tail call of a void straight-line routine without scratch: its instructions, operands
+        substituted (`ec2NegA(t, b, ec)` inside ec2SubAA)"""
+        f = self.callee(n)
+        g = self.done[f]
+        args = [self.ev(x, env) for x in n["inner"][1:]]
+        if not g.void or g.uses_s or g.uses_p or g.has_stack:
+            self.bad("non-tail call of " + f)
+        if g.prog[0] == "block" and g.prog[2] == ("ret", True):
+            body = g.prog[1]
+        else:
+            self.bad("non-tail call of " + f)
+        if len(args) != len(g.points) + 1 or args[-1] != ("ec",):
+            self.bad("arguments of " + f)
+        m = {}
+        for nm, v in zip(g.points, args):
+            if v[0] != "ptr":
+                self.bad("point argument of " + f)
+            m[nm] = v
+
+        def sub(p):
+            if p[0] == "reg":
+                return p
+            if p[0] == "ptr" and p[1] in m:
+                return ("ptr", m[p[1]][1], m[p[1]][2] + p[2])
+            self.bad("operand of inlined " + f)
+        ins = []
+        for op, ops in body:
+            ss = [self.rd(sub(p), env) for p in ops[1:]]
+            ins.append((op, [self.wr(sub(ops[0]), env)] + ss))
+        return ins
 
     @staticmethod
     def exp(e, minprec=0):
@@ -463,7 +535,7 @@ class Fn:
 
     def is_range_guard(self, n, env):
         """`if (!zmIsIn(ecX(a), f) || !zmIsIn(ecY(a, n), f)) return FALSE;` of ecpIsOnA"""
-        if self.name != "ecpIsOnA" or n.get("hasElse") or len(n["inner"]) != 2:
+        if self.name not in ("ecpIsOnA", "ec2IsOnA") or n.get("hasElse") or len(n["inner"]) != 2:
             return False
         try:
             t = self.test(n["inner"][0], env)
@@ -472,6 +544,9 @@ class Fn:
         a = self.points[0]
         want = ("test", "or", ("test", "not", ("test", "inrange", ("ptr", a, 0))),
                 ("test", "not", ("test", "inrange", ("ptr", a, 1))))
+        if self.name == "ec2IsOnA":          # !ec2SeemsOnA(a, ec) = !(gf2IsIn(xa) && gf2IsIn(ya))
+            isin = lambda i: ("test", "or", ("test", "aligned"), ("test", "inrange", ("ptr", a, i)))
+            want = ("test", "not", ("test", "and", isin(0), isin(1)))
         if t != want:
             return False
         b = n["inner"][1]
@@ -551,6 +626,9 @@ class Fn:
                 return ("ret", True)
             if len(inner) != 1:
                 self.bad("return without value")
+            v0 = strip(inner[0])
+            if v0["kind"] == "CallExpr" and self.callee(v0) in self.done:
+                return self.call(v0, env)           # `return g(...)`: tail call, same result
             v = self.ev(inner[0], env)
             if v in (("int", 0), ("int", 1)):
                 return ("ret", v[1] == 1)
@@ -559,7 +637,9 @@ class Fn:
             self.bad("return value")
         if k == "IfStmt":
             if self.is_range_guard(n, env):
-                self.notes.append("leading range test zmIsIn(xa) && zmIsIn(ya) skipped (modelled in Wrap.isOnAW)")
+                self.notes.append("leading range test zmIsIn(xa) && zmIsIn(ya) skipped (modelled in Wrap.isOnAW)"
+                                  if self.name == "ecpIsOnA" else
+                                  "leading range test ec2SeemsOnA(a) skipped (done by the wrapper)")
                 return self.stmts(rest, env)
             parts = n["inner"]
             if len(parts) not in (2, 3) or (len(parts) == 3) != bool(n.get("hasElse")):
@@ -570,14 +650,13 @@ class Fn:
                  (lambda e: self.stmts(rest, e))
             return self.branch(t, env, th, el)
         if k == "CallExpr":
-            r = self.call(n, env)
-            if isinstance(r, tuple):        # tail call of another routine
-                if not self.void:
-                    self.bad("routine call in a non-void function")
+            if self.callee(n) in self.done:
                 tail = [x for x in self.flat(rest) if not (x["kind"] == "NullStmt" or is_void0(x))]
-                if tail and not (tail[0]["kind"] == "ReturnStmt" and not tail[0].get("inner")):
-                    self.bad("routine call not in tail position")
-                return r
+                if self.void and (not tail or (tail[0]["kind"] == "ReturnStmt" and not tail[0].get("inner"))):
+                    return self.call(n, env)        # tail call of another routine
+                r = self.inline(n, env)             # non-tail call of a straight-line routine
+            else:
+                r = self.call(n, env)
             k2 = self.stmts(rest, env)
             if not r:
                 return k2
@@ -670,7 +749,7 @@ class Fn:
         used = set()
         body = self.show(self.prog, 1, used)
         sig = ("(p : Nat) " if self.uses_p else "") + "(%s : Nat)" % " ".join(self.lean_params())
-        out = ["/-- `%s` of %s%s -/" % (self.name, SRC, "".join("; " + x for x in self.notes))]
+        out = ["/-- `%s` of %s%s -/" % (self.name, self.src, "".join("; " + x for x in self.notes))]
         out.append("def %s %s : Prog :=" % (self.name, sig))
         lets = []
         for nm, o in self.locals:
@@ -702,14 +781,16 @@ def refs(n):
     return {x["referencedDecl"]["name"] for x in walk(n) if x.get("kind") == "DeclRefExpr"}
 
 
-def create_table(names):
-    """function table of ecpCreateJ and the definition of bA3.
+def create_table(names, fnname="ecpCreateJ", src=None, fields=None, with_ba3=True):
+    """function table of ecpCreateJ (ec2CreateLD) and the definition of bA3 (none in ec2CreateLD).
     -> ([(field, fn_if_bA3, fn_otherwise)], Lean term of bA3 over `f : Fld F`, `A : F`)"""
-    fnname = "ecpCreateJ"
+    src = src or SRC
+    TABLE_FIELDS = fields or globals()["TABLE_FIELDS"]
+    ALL_FIELDS = globals()["TABLE_FIELDS"]
 
     def bad(w):
         raise Unhandled("unhandled:%s:%s" % (fnname, w))
-    decl, body = tu_function(SRC, fnname, EXTRA)
+    decl, body = tu_function(src, fnname, EXTRA)
 
     def is_ec_member(n, fields):
         n = strip(n)
@@ -737,7 +818,7 @@ def create_table(names):
             return n["name"]
         return None
 
-    table, tval, ba3 = {}, None, None
+    table, tval, ba3 = {}, None, (None if with_ba3 else "-")
     top = list(body.get("inner", []))
     # the table fields must not be assigned anywhere but at top level
     for st in top:
@@ -745,20 +826,24 @@ def create_table(names):
             if x is st:
                 continue
             if x.get("kind") == "BinaryOperator" and x.get("opcode") == "=" and \
-                    is_ec_member(x["inner"][0], TABLE_FIELDS):
+                    is_ec_member(x["inner"][0], ALL_FIELDS):
                 bad("nested assignment to a table field")
     for st in top:
         if is_void0(st):
             continue
         if st["kind"] == "BinaryOperator" and st["opcode"] == "=":
-            fld = is_ec_member(st["inner"][0], TABLE_FIELDS)
+            fld = is_ec_member(st["inner"][0], ALL_FIELDS)
             if fld:
+                if fld not in TABLE_FIELDS:
+                    bad("unexpected table field " + fld)
                 if fld in table:
                     bad("field %s assigned twice" % fld)
                 if ba3 is None:
                     bad("table filled before bA3 is known")
                 r = strip(st["inner"][1])
                 if r["kind"] == "ConditionalOperator":
+                    if not with_ba3:
+                        bad("conditional table entry")
                     if not is_var(r["inner"][0], "bA3"):
                         bad("table condition")
                     table[fld] = (fn_of(r["inner"][1]), fn_of(r["inner"][2]))
@@ -766,7 +851,7 @@ def create_table(names):
                     table[fld] = (fn_of(r), fn_of(r))
                 continue
         r = refs(st)
-        if not (r & {"t", "bA3"}):
+        if not with_ba3 or not (r & {"t", "bA3"}):
             continue                       # the rest of ecpCreateJ is outside this translation
         if st["kind"] == "DeclStmt":
             for v in st.get("inner", []):
@@ -829,6 +914,26 @@ def create_table(names):
             if g not in names:
                 bad("table entry %s is not a translated routine" % g)
     return [(fld,) + table[fld] for fld in TABLE_FIELDS], ba3
+
+
+# routines of src/math/ec2.c (Lopez-Dahab coordinates), dependency order
+SRC_EC2 = "src/math/ec2.c"
+ROUTINES_EC2 = [
+    ("ec2FromALD", {"b": 3, "a": 2}),
+    ("ec2ToALD", {"b": 2, "a": 3}),
+    ("ec2NegLD", {"b": 3, "a": 3}),
+    ("ec2DblLD", {"b": 3, "a": 3}),
+    ("ec2DblALD", {"b": 3, "a": 2}),
+    ("ec2AddLD", {"c": 3, "a": 3, "b": 3}),
+    ("ec2AddALD", {"c": 3, "a": 3, "b": 2}),
+    ("ec2SubLD", {"c": 3, "a": 3, "b": 3}),
+    ("ec2SubALD", {"c": 3, "a": 3, "b": 2}),
+    ("ec2IsOnA", {"a": 2}),
+    ("ec2NegA", {"b": 2, "a": 2}),
+    ("ec2AddAA", {"c": 2, "a": 2, "b": 2}),
+    ("ec2SubAA", {"c": 2, "a": 2, "b": 2}),
+]
+TABLE_FIELDS_EC2 = ["froma", "toa", "neg", "add", "adda", "sub", "suba", "dbl", "dbla"]
 
 
 # -------------------------------------------------------------------- ecNAFWidth
@@ -927,5 +1032,50 @@ def generate():
     return "\n".join(o) + "\n"
 
 
+def translate_ec2():
+    done = {}
+    for name, sizes in ROUTINES_EC2:
+        done[name] = Fn(name, sizes, done, SRC_EC2)
+    return done
+
+
+def generate_ec2():
+    """text of Bee2V/Gen/C06Ec2.lean"""
+    done = translate_ec2()
+    table, _ = create_table(set(done), "ec2CreateLD", SRC_EC2, TABLE_FIELDS_EC2, with_ba3=False)
+    o = []
+    o.append("/-")
+    o.append("GENERATED by xlate/x_c06_ecp.py from %s (clang-14 AST, -DNDEBUG) -- do not edit." % SRC_EC2)
+    o.append("Regenerated on every run of the check; `Bee2V/C06/PropsGen2.lean` proves that each definition")
+    o.append("below equals the hand-written one of `Bee2V/C06/Ec2.lean` (by `rfl`).")
+    o.append("")
+    o.append("Translated (instructions / tests / returns / tail calls along all branches):")
+    for name, _ in ROUTINES_EC2:
+        c = count(done[name].prog)
+        o.append("  %-10s %3d / %d / %d / %d%s" % ((name,) + c + ("".join("   [" + x + "]" for x in done[name].notes),)))
+    o.append("  ec2CreateLD: function table only (createLD_*)")
+    o.append("Skipped: none of the listed routines.")
+    o.append("Conventions: ASSERT (= `((void)0)`) skipped; gf2Add(c,a,b) = wwXor -> `add c a b`; gf2Add2(b,a) = wwXor2")
+    o.append("-> `add b b a`; gf2Neg = wwCopy -> `copy`; qrIsUnity(ec->A) -> `ifone rA`; the non-tail call")
+    o.append("ec2NegA(t, b, ec) of ec2SubAA is inlined (straight-line callee, operands substituted).")
+    o.append("-/")
+    o.append("import Bee2V.C06.Core")
+    o.append("namespace Bee2V.C06.Gen")
+    o.append("open Bee2V.C06 Instr Prog")
+    o.append("")
+    for name, _ in ROUTINES_EC2:
+        o.append(done[name].lean())
+    o.append("/-- `ec2CreateLD`: the interface table (field, routine) -/")
+    o.append("def createLD_table : List (String × String) :=\n  [" +
+             ",\n   ".join('("%s", "%s")' % (r[0], r[2]) for r in table) + "]\n")
+    for fld, f1, f2 in table:
+        g = done[f2]
+        ty = " → ".join(["Nat"] * len(g.lean_params()) + ["Prog"])
+        o.append("def createLD_%s : %s := %s" % (fld, ty, f2))
+    o.append("")
+    o.append("end Bee2V.C06.Gen")
+    return "\n".join(o) + "\n"
+
+
 if __name__ == "__main__":
-    sys.stdout.write(generate())
+    sys.stdout.write(generate_ec2() if sys.argv[1:] == ["ec2"] else generate())
